@@ -481,12 +481,48 @@ pub fn execute(sc: &AsyncScenario, sh: &Shared) -> Value {
             }
         }
         sh.note(PH_DROP, li as u64, 0, lt.exit_panic as u64);
+        // another executor thread awaits every faked function at each OS-call boundary of the
+        // restoration: it completes with one of that function's fakes of this lifetime, or runs
+        // the original -- never anything else
+        let watch: Vec<(usize, Vec<usize>)> = model.iter().enumerate().filter(|(_, m)| !m.is_empty()).map(|(f, m)| (f, m.clone())).collect();
+        let dfind: std::rc::Rc<std::cell::RefCell<Vec<String>>> = Default::default();
+        let dfind2 = dfind.clone();
+        let dobs: std::rc::Rc<std::cell::Cell<u64>> = Default::default();
+        let dobs2 = dobs.clone();
+        interpose::set_observer(Some(Box::new(move |point| {
+            for (func, sites) in &watch {
+                let body_before = BODY[*func].load(Ordering::SeqCst);
+                let seq_before = SEQ[*func].load(Ordering::SeqCst);
+                let got = await_func(*func, 13);
+                let ran = BODY[*func].load(Ordering::SeqCst) - body_before;
+                dobs2.set(dobs2.get() + 1);
+                let mut ok = got.as_deref() == Some(original_value(*func, 13).as_str()) && ran == 1;
+                for s in sites {
+                    if got.as_deref() == Some(fake_value(*func, *s, seq_before).as_str()) && ran == 0 {
+                        ok = true;
+                    }
+                }
+                if !ok {
+                    dfind2.borrow_mut().push(format!("at the {point} boundary an await of async function #{func} on another thread gave {:?} (original body ran {ran}x)", got));
+                }
+            }
+        })));
+        interpose::arm(true);
         let r = catch_unwind(AssertUnwindSafe(move || {
             let _inj = inj;
             if lt.exit_panic {
                 std::panic::panic_any(Injected);
             }
         }));
+        interpose::arm(false);
+        interpose::set_observer(None);
+        awaits += dobs.get();
+        if dobs.get() > 0 {
+            *probes.entry("awaits_interleaved_with_restoration".into()).or_insert(0) += dobs.get();
+        }
+        if let Some(f) = dfind.borrow().first() {
+            v("await-during-restoration-saw-neither-a-fake-nor-the-original", &["C14", "C02"], format!("lifetime {li} scope exit: {f}"));
+        }
         if let Err(p) = r {
             if !p.is::<Injected>() {
                 v("drop-panicked", &["C02"], format!("lifetime {li}: {}", panic_msg(&p)));
